@@ -57,6 +57,15 @@
 #endif
 
 #if SIM_FLAVOR == SIM_C99
+/* with %option noyyalloc/noyyrealloc/noyyfree/noyypanic/noyyread the c99 skeleton declares nothing */
+void *yyalloc(size_t n, yyscan_t yyscanner);
+void *yyrealloc(void *p, size_t n, yyscan_t yyscanner);
+void yyfree(void *p, yyscan_t yyscanner);
+void yypanic(const char *msg, yyscan_t yyscanner);
+int yywrap(yyscan_t yyscanner);
+#if SIM_USER_INPUT
+int yyread(char *buf, size_t max_size, yyscan_t yyscanner);
+#endif
 #define SIM_YYBEGIN(s) yybegin((s), yyscanner)
 #define SIM_YYSTART() yystart(yyscanner)
 #define SIM_ATBOL() yyatbol(yyscanner)
@@ -102,6 +111,7 @@
 static void sim_common_op(const sim_xop *x SC_DECL__);
 #endif
 
+#if SIM_FLAVOR != SIM_C99
 /* the interpreter run by every ordinary rule action */
 #define SIM_ACTION(k) \
 	do { \
@@ -148,5 +158,6 @@ static void sim_common_op(const sim_xop *x SC_DECL__);
 		sim_leave(); \
 		if (!sim_cur->provided_input) { SIM_TERMINATE(); } \
 	} while (0)
+#endif
 
 #endif
